@@ -1,3 +1,4 @@
+use crate::tls_demultiplexer::Protocol;
 use std::fmt::{Display, Formatter};
 use std::future::Future;
 use std::io;
@@ -5,20 +6,29 @@ use std::sync::{Arc, Mutex};
 use std::time::Duration;
 use tokio::sync::{broadcast, mpsc};
 
-/// How long the orderly close of a session may take once a shutdown has been submitted
+/// How long the orderly close of an HTTP/1.1 session may take once a shutdown has been submitted
 pub(crate) const SESSION_CLOSE_TIMEOUT: Duration = Duration::from_secs(10);
 
 /// Runs the orderly close of a session that ends because a shutdown has been submitted.
-/// A client that has stopped reading takes neither the rest of its download nor the closing
-/// alert: it must not keep the session, and the shutdown that waits for it, from finishing.
-/// When the limit expires the close fails and the connection is closed by dropping it.
-pub(crate) async fn close_within_bound<F>(close: F) -> io::Result<()>
+///
+/// The limit is for HTTP/1.1 sessions only. Such a session has one client, and its close has to
+/// push the rest of the download and the closing alert to it: a client that has stopped reading
+/// takes neither, and it must not keep the session, and the shutdown that waits for it, from
+/// finishing. When the limit expires the close fails and the connection is closed by dropping it.
+///
+/// An HTTP/2 session winds down by GOAWAY: it takes no new streams and lets the streams in
+/// flight run to their end, however long they take, so its close is awaited without a limit
+/// (as is the close of an HTTP/3 session, which does not wait for the client at all).
+pub(crate) async fn close_within_bound<F>(protocol: Protocol, close: F) -> io::Result<()>
 where
     F: Future<Output = io::Result<()>>,
 {
-    tokio::time::timeout(SESSION_CLOSE_TIMEOUT, close)
-        .await
-        .unwrap_or_else(|_| Err(io::Error::from(io::ErrorKind::TimedOut)))
+    match protocol {
+        Protocol::Http1 => tokio::time::timeout(SESSION_CLOSE_TIMEOUT, close)
+            .await
+            .unwrap_or_else(|_| Err(io::Error::from(io::ErrorKind::TimedOut))),
+        Protocol::Http2 | Protocol::Http3 => close.await,
+    }
 }
 
 /// This entity is intended to provide a possibility to gracefully shutdown
